@@ -799,6 +799,11 @@ fn mir_body<'tcx>(tcx: TyCtxt<'tcx>, ldid: LocalDefId, body: &mir::Body<'tcx>) -
 							tv.push(("inst", s(dps(tcx, id))));
 						}
 					}
+					// `x.into()` / `x.try_into()` resolve to core's blanket impls; name the From / TryFrom
+					// impl they forward to, so that the call graph sees through them
+					if let Some(fwd) = blanket_forward(tcx, env, did, gargs) {
+						tv.push(("fwd", s(fwd)));
+					}
 				} else {
 					tv.push(("callee_op", s(with_no_trimmed_paths!(format!("{:?}", func)))));
 				}
@@ -1145,4 +1150,38 @@ fn emit(tcx: TyCtxt<'_>, dir: &str, name: &str) {
 	let tmp = format!("{}.tmp.{}", path, std::process::id());
 	std::fs::write(&tmp, text).expect("write facts");
 	std::fs::rename(&tmp, &path).expect("rename facts");
+}
+
+
+/// For a call of `Into::into` / `TryInto::try_into` with generic args `[T, U]`, the path of the
+/// `<U as From<T>>::from` / `<U as TryFrom<T>>::try_from` implementation the blanket impl forwards to.
+fn blanket_forward<'tcx>(
+	tcx: TyCtxt<'tcx>,
+	env: ty::TypingEnv<'tcx>,
+	did: DefId,
+	gargs: ty::GenericArgsRef<'tcx>,
+) -> Option<String> {
+	let tr = tcx.trait_of_assoc(did)?;
+	let target_trait = if Some(tr) == tcx.get_diagnostic_item(rustc_span::sym::Into) {
+		tcx.get_diagnostic_item(rustc_span::sym::From)?
+	} else if Some(tr) == tcx.get_diagnostic_item(rustc_span::sym::TryInto) {
+		tcx.get_diagnostic_item(rustc_span::sym::TryFrom)?
+	} else {
+		return None;
+	};
+	if gargs.len() != 2 {
+		return None;
+	}
+	let t = gargs[0];
+	let u = gargs[1];
+	let method = tcx
+		.associated_items(target_trait)
+		.in_definition_order()
+		.find(|i| matches!(i.kind, ty::AssocKind::Fn { .. }))?
+		.def_id;
+	let new_args = tcx.mk_args(&[u, t]);
+	match ty::Instance::try_resolve(tcx, env, method, new_args) {
+		Ok(Some(inst)) => Some(dps(tcx, inst.def_id())),
+		_ => None,
+	}
 }
